@@ -96,8 +96,12 @@ func NewRunner(
 		return nil, err
 	}
 
-	// Validate: check if database was migrated with a newer version of Juno (version downgrade)
-	err = validateNoVersionDowngrade(metadata.CurrentVersion, targetVersion)
+	// Validate: check if database was migrated with a newer version of Juno (version downgrade).
+	// Migrations beyond this registry that a newer Juno already targeted (opted into) count as
+	// well, even if they have not completed: this binary can neither resume nor undo them.
+	known := uint(registry.Count())
+	unknownTargeted := metadata.LastTargetVersion >> known << known
+	err = validateNoVersionDowngrade(metadata.CurrentVersion.Union(unknownTargeted), targetVersion)
 	if err != nil {
 		return nil, err
 	}
